@@ -583,7 +583,15 @@ pub fn remove_dir(path: &UnixStr) -> Result<()> {
 /// # Errors
 /// Os errors relating to file access/permissions
 pub fn remove_dir_all(path: &UnixStr) -> Result<()> {
-    let dir = Directory::open(path)?;
+    // It has to be a directory, not something that leads to one, what's behind a link isn't ours to empty
+    let fd = rusl::unistd::open(
+        path,
+        OpenFlags::O_CLOEXEC
+            | OpenFlags::O_RDONLY
+            | OpenFlags::O_DIRECTORY
+            | OpenFlags::O_NOFOLLOW,
+    )?;
+    let dir = Directory(OwnedFd(fd));
     dir.remove_all()?;
     remove_dir(path)
 }
